@@ -726,6 +726,7 @@ func init() {
 	registerContextIntrinsics(reg)
 	registerStringIntrinsics(reg)
 	registerViperIntrinsics(reg)
+	registerRegexpIntrinsics(reg)
 	_ = unicode.IsSpace
 	_ = sort.Ints
 }
